@@ -220,6 +220,7 @@ type Run struct {
 	invokeSeq map[int]int
 	stopping  bool
 	budgetStop bool
+	parkedLog []string
 }
 
 // HistOp is one completed client operation with event-sequence stamps.
@@ -307,7 +308,16 @@ func (r *Run) buildConfig() bluge.Config {
 			r.s.Gate("event", eventName(e.Kind))
 		}
 	} else {
+		// Client-side events are only recorded (a goroutine parked inside the
+		// callback counts as "blocking" for the persister's nap decision).
+		// The persister's and merger's progress events stay gates: they
+		// separate "woke the other loop" from "went on to the next select",
+		// which would otherwise race inside one window.
 		ic.EventCallback = func(e index.Event) {
+			if e.Kind == index.EventKindPersisterProgress || e.Kind == index.EventKindMergerProgress {
+				r.s.Gate("event", eventName(e.Kind))
+				return
+			}
 			r.s.Rec("event", eventName(e.Kind), nil)
 		}
 	}
@@ -717,6 +727,13 @@ func (r *Run) runLoop(until func() bool) {
 			r.s.NextWindow()
 			r.s.Advance(time.Duration(r.k.NapMS) * time.Millisecond)
 			continue
+		}
+		if r.t.trace {
+			var all []string
+			for _, p := range P {
+				all = append(all, p.actor+":"+p.label)
+			}
+			r.parkedLog = append(r.parkedLog, fmt.Sprintf("w%d %v", r.s.Win, all))
 		}
 		r.release(r.choose(P))
 	}
